@@ -275,6 +275,9 @@ def run(tier, seed):
     nh = history_family(v, wd, 300 if thorough else 24, seed)
     v.cov["traces_validated_against_impl"] = len(results) + nh
     v.assumptions += ["provider behaviours are the six response outcomes x call items of the alphabet; byte-level variety is C15's"]
+    # the repository's own tests as drivers: every recorded execution against the monitor half of System.tla
+    from .. import suite
+    suite.check(v, wd)
     return v.finish(
         rule="cases = one provider script per distinct predicted run of RunLoop.tla + 14 scenarios (envelopes, no provider, dead endpoint, compile failure, parallel runs, failing / succeeding compaction jobs, operations after a run) "
              "+ generated histories (random operation sequences; whole log in file order validated against LifecycleTrace); "
@@ -286,6 +289,9 @@ def replay(path, seed):
     with open(path) as f:
         rep = json.load(f)
     case = rep["case"]
+    if case.get("engine") == "suite":
+        from .. import suite
+        return suite.replay(PROP, path, case)
     wd = workdir(PROP + "-replay")
     if case.get("engine") == "history":
         v = Verdict(PROP, "replay", seed)
